@@ -22,6 +22,50 @@ CLAIMS = {
             'DESIGN.md section 5 C19', 'bbox'),
 }
 
+GEO_NOTE = ('Trusts TLC, the harness embedding of the lattice into pixel coordinates (exact power-of-two scale, integer '
+            'translation) and the projection back. Angles are restricted to the 44 rational (Pythagorean) directions and '
+            'parameters to dyadic lattices; positions the exact model marks EDGE (on the boundary or within 2^-20 relative) '
+            'and extremes exactly on a pixel edge through a rotation are not compared.')
+CLAIMS.update({
+    'C01': ('model_checking',
+            'Geometry.tla gives the exact membership predicate of every pixel shape by integer cross-multiplication; TLC checks '
+            'the model-level laws (annulus built as xor of meta-sharing helpers = outer minus inner, include-false = complement, '
+            'translation/scale equivariance) over ~10k shapes x a lattice window; every returning state is replayed into the real '
+            'contains() under exact scale/translation/angle-unit embeddings incl. N-D, 0-length, scalar, int queries; random '
+            'shapes are validated event by event by Trace_Geometry.tla.',
+            GEO_NOTE, 'TLA+ exact lattice model + TLC, spec->code replay of every state, code->spec trace validation',
+            'DESIGN.md section 5 C01', 'geometry'),
+    'C02': ('model_checking',
+            'Mask Ref (count of member sub-sample centres on the exact box) and the Impl of compound/annulus masks (pad each '
+            'operand to the union box, then the operator) are model-checked to agree; every state is replayed into '
+            "to_mask('center'/'subpixels', n) (box, shape, integral counts, n=1 = centre, NotImplementedError table); random "
+            'shapes with n in 1..12 at pixel-edge/corner/far positions are validated by Trace_Geometry.tla.',
+            GEO_NOTE, 'TLA+ exact lattice model + TLC, spec->code replay, code->spec trace validation',
+            'DESIGN.md section 5 C02', 'geometry'),
+    'C04': ('model_checking',
+            'BoxOf in Geometry.tla is the exact floor/ceil of the true extent (irrational ellipse extents decided by comparing '
+            'squares); TLC checks enclosure of every member lattice point and translation; every state replayed into '
+            'bounding_box and to_mask().bbox; random shapes on 1/2..1/16 pixel lattices validated by Trace_Geometry.tla.',
+            GEO_NOTE, 'TLA+ exact lattice model + TLC, spec->code replay, code->spec trace validation',
+            'DESIGN.md section 5 C04', 'geometry'),
+    'C08': ('model_checking',
+            'Compound membership (Kleene and/or/xor of operands, negated as a whole), compound masks on the union box, rotation '
+            'and annulus = outer minus inner are model-checked on pairs over a 9-leaf pool and nested expressions to depth 3 '
+            'with include flags; replayed into the real &,|,^ operators, CompoundPixelRegion, to_mask, rotate and '
+            'pixel->sky->pixel conversion; random trees validated by Trace_Geometry.tla.',
+            GEO_NOTE + ' Sky conversion is exercised on three undistorted WCS only.',
+            'TLA+ exact lattice model + TLC, spec->code replay, code->spec trace validation',
+            'DESIGN.md section 5 C08', 'geometry'),
+    'C15': ('model_checking',
+            'Rotate/Translate in Geometry.tla are exact (rational directions multiply as complex numbers); TLC checks '
+            'Member(Rotate(r), Rot(p)) = Member(r, p), area preservation, rotate-back identity, and translation of boxes and '
+            'masks; every rotate state is replayed into the real rotate() (class/meta/visual, parameters to 1e-9, area, '
+            'membership at rotated lattice points, rotate back, original untouched); integer translations to 1e4 must shift the '
+            'box exactly and leave mask arrays bitwise equal in centre/sub-pixel/exact modes.',
+            GEO_NOTE, 'TLA+ exact lattice model + TLC, spec->code replay, code->spec trace validation',
+            'DESIGN.md section 5 C15', 'geometry'),
+})
+
 PENDING_REASON = ('specification module for this property is designed in DESIGN.md but its TLA+ module and '
                   'conformance binding are not built yet; not claimed until they are')
 
@@ -78,6 +122,9 @@ ENGINES = [
                              'vf/engines/c19.py', 'serves_properties': ['C19'],
      'kind_free_text': 'TLA+ model of integer rectangle algebra; TLC exhaustive + replay + trace validation + TLAPS'},
 ]
+ENGINES.append({'name': 'geometry', 'path': 'specs/Geometry.tla specs/MC_Geometry.tla specs/Trace_Geometry.tla vf/geom.py '
+                'vf/geomgen.py vf/engines/c01.py c02.py c04.py c08.py c15.py', 'serves_properties': ['C01', 'C02', 'C04', 'C08', 'C15'],
+                'kind_free_text': 'exact integer lattice model of pixel-region geometry; TLC exhaustive on families, replay, trace validation'})
 NA = {}
 
 
